@@ -76,7 +76,14 @@ fn gen_slots(rng: &mut Rng, f: &mut Fmt, n_groups: usize) -> Vec<[u8; 32]> {
                 nm.copy_from_slice(&s[..11]);
                 let mut run = lfn_slots(&name, &nm);
                 let k = rng.usize_below(run.len());
-                match rng.below(9) {
+                match rng.below(11) {
+                    9 | 10 => {
+                        // a live short entry in the middle of the run: it ends the run, the rest
+                        // belongs to nobody
+                        let mid = short(f, rng, &mut serial);
+                        let at = if run.len() > 1 { 1 + rng.usize_below(run.len() - 1) } else { 1.min(run.len()) };
+                        run.insert(at, mid);
+                    }
                     0 => {
                         run.remove(k); // gap
                     }
